@@ -34,7 +34,9 @@ Items ==
   \cup { [k |-> "bq", s |-> c] : c \in {x \in Contents : BQOK(x)} }
   \* comment tags: their text is not code -- a #, a quote, a back quote, a brace or a keyword in it hides nothing
   \cup { [k |-> "cmt", s |-> c] : c \in { <<"s", "e", "e", " ", "HASH", "1", "2">>, <<"s", "a", "y", " ", "QUOT", "h", "i">>, <<"i", "t", "APOS", "s", " ", "BQ", "x">>,
-                                          <<"LBR", " ", "i", "f", " ", "(">>, <<"NL", "HASH", " ", "x", "NL">>, <<"PCT", " ", "RBR", " ", "<">> } }
+                                          <<"LBR", " ", "i", "f", " ", "(">>, <<"NL", "HASH", " ", "x", "NL">>, <<"PCT", " ", "RBR", " ", "<">>,
+                                          \* ... also after the text mentions a tag opener
+                                          <<"t", "h", "e", " ", "<", "PCT", "=", " ", "t", "a", "g", " ", "5", "QUOT", " ", "x">>, <<"s", "e", "e", " ", "<", "PCT", " ", "HASH", "2">> } }
   \cup { [k |-> o, s |-> <<>>] : o \in {"num", "var", "silentexpr", "silentstr", "let", "assign", "silentif", "silentfor", "comment", "silentraw", "silentcall", "fnout", "silentfn",
                                        "escopen", "bslemit", "false", "zero", "emptystr", "nilv", "arrvar", "arrpair", "twoblk", "nestblk", "blkloop", "iterbrk", "arrbrk"} }
 
